@@ -85,9 +85,14 @@ Add(st, facts) == [st EXCEPT !.model = @ \cup facts]
 \* element is its k-th declaration
 Loc(st, elem, d) == [st EXCEPT !.locs = Append(@, [elem |-> elem, pos |-> d.pos])]
 
+\* an attribute is <<name, text>> (a string) or <<name, "[]", e1, ..., en>> (an array of strings)
+RECURSIVE JoinElts(_)
+JoinElts(es) == IF es = <<>> THEN "" ELSE "s\"" \o es[1] \o "\"" \o (IF Len(es) > 1 THEN "," ELSE "") \o JoinElts(Tail(es))
+ArrVal(es) == "a[" \o JoinElts(es) \o "]"
+AVal(a) == IF Len(a) >= 2 /\ a[2] = "[]" THEN ArrVal(SubSeq(a, 3, Len(a))) ELSE "s\"" \o a[2] \o "\""
 AttrFacts(kind, key, d) ==
   {<<kind \o ".tag">> \o key \o <<d.tags[i]>> : i \in DOMAIN d.tags}
-  \cup {<<kind \o ".attr">> \o key \o <<d.attrs[i][1], "s\"" \o d.attrs[i][2] \o "\"">> : i \in DOMAIN d.attrs}
+  \cup {<<kind \o ".attr">> \o key \o <<d.attrs[i][1], AVal(d.attrs[i])>> : i \in DOMAIN d.attrs}
 
 \* number of top-level statements already in endpoint (app, ep)
 StmtCount(st, app, ep) ==
@@ -160,9 +165,12 @@ StepApp(st, d) ==
                     \cup AttrFacts("app", <<d.name>>, d))
   IN Push(Loc(s1, <<"app", d.name>>, d), [k |-> "app", app |-> d.name])
 
+\* a later block of a re-opened type that states an attribute again gives it its value (tags accumulate)
 StepType(st, d) ==
   LET app == Top(st).app
-      s1 == Add(st, {<<"type", app, d.name, d.kind>>} \cup AttrFacts("type", <<app, d.name>>, d))
+      names == {d.attrs[i][1] : i \in DOMAIN d.attrs}
+      s0 == [st EXCEPT !.model = {f \in @ : ~(f[1] = "type.attr" /\ f[2] = app /\ f[3] = d.name /\ f[4] \in names)}]
+      s1 == Add(s0, {<<"type", app, d.name, d.kind>>} \cup AttrFacts("type", <<app, d.name>>, d))
   IN Push(Loc(s1, <<"type", app, d.name>>, d), [k |-> "type", app |-> app, type |-> d.name, kind |-> d.kind, own |-> 0])
 
 StepField(st, d) ==
@@ -201,7 +209,11 @@ StepMixin(st, d) == Add(st, {<<"mixin", Top(st).app, d.name>>})
 StepAnno(st, d) ==
   LET fr == Top(st)
       key == CASE fr.k = "app" -> <<fr.app>> [] fr.k = "type" -> <<fr.app, fr.type>> [] OTHER -> <<fr.app, fr.ep>>
-  IN Add(st, {<<fr.k \o ".attr">> \o key \o <<d.name, "s\"" \o d.val \o "\"">>})
+      val == IF d.arr # <<>> THEN ArrVal(d.arr) ELSE "s\"" \o d.val \o "\""
+      \* the first value given to an annotation stays; every declaration records its location
+      given == \E f \in st.model : f[1] = fr.k \o ".attr" /\ SubSeq(f, 2, Len(key) + 1) = key /\ f[Len(key) + 2] = d.name
+      s1 == IF given THEN st ELSE Add(st, {<<fr.k \o ".attr">> \o key \o <<d.name, val>>})
+  IN Loc(s1, <<fr.k \o ".attr">> \o key \o <<d.name>>, d)
 
 StepEp(st, d) ==
   LET app == Top(st).app
